@@ -76,6 +76,13 @@ pub fn minimize(l: &[u8], s: &[u8], r: &[u8]) -> String {
             }
             let mm = likelysubtags::minimize(mo.0, mo.1, mo.2);
             if mm != Some(t) { return format!("LAWFAIL minimize(maximize(x)) differs: {}", fmt3(&t)); }
+            // the result is the FIRST of {language, language-region, language-script} that maximizes back to the maximized original
+            let trials = [(mo.0, None, None), (mo.0, None, mo.2), (mo.0, mo.1, None)];
+            match trials.iter().find(|f| likelysubtags::maximize(f.0, f.1, f.2) == Some(mo)) {
+                Some(f) if *f != t => return format!("LAWFAIL not the first trial form that maximizes back: {} (first: {})", fmt3(&t), fmt3(f)),
+                None => return format!("LAWFAIL the result does not maximize back through any trial form: {}", fmt3(&t)),
+                _ => {}
+            }
             format!("SOME {}", fmt3(&t))
         }
     }
